@@ -340,6 +340,8 @@ class Future(BaseFuture):
         return self._get_access_commands(GenericInstr.LOAD, register)
 
     def _get_store_commands(self, register: operand.Register) -> List[T_Cmd]:
+        # The Host only sees the new value if the array is returned again.
+        self.builder._mem_mgr.add_written_array_address(self._address)
         return self._get_access_commands(GenericInstr.STORE, register)
 
     def _get_access_commands(
